@@ -35,7 +35,7 @@ def register(reg):
     L = 'old_self._config.override_config(config).override(start=start, **settings)'
     for variant, tsort in (('#str', 'str'), ('#text', 'opaque:TextObj')):
         contract(
-            reg, f'{E}:ParserEngine.bound{variant}', ['C09', 'C10'],
+            reg, f'{E}:ParserEngine.bound{variant}', ['C02', 'C09', 'C10'],
             {'self': 'Ctx', 'text': tsort, 'start': 'Val', 'config': 'any', 'asmodel': 'bool', 'settings': 'Val'}, ret='None',
             ghost={'body': 'func:BOUNDBODY'},
             # C09: what the parse runs with is this call's settings layered over this call's config layered over the
